@@ -10,7 +10,10 @@ func genC20(o *Out) {
 	_ = o.pinFile("isaac/database/perm_base.go", "basePermanent.LastSuffrageProofBytes", "basePermanent.LastBlockMapBytes", "basePermanent.LastSuffrageProof", "basePermanent.LastBlockMap")
 	g := o.pinFile("isaac/database/leveldb.go", "baseLeveldb.loadLastBlockMap", "baseLeveldb.loadNetworkPolicy")
 	ct := o.pinFile("isaac/database/center.go", "Center.load", "loadTemps", "loadTemp", "Center.RemoveBlocks", "Center.removeTemp", "Center.cleanRemoved")
-	_ = o.pinFile("isaac/database/block_write.go", "removeHigherHeights")
+	_ = o.pinFile("isaac/database/block_write.go", "removeHigherHeights", "LeveldbBlockWrite.setState", "LeveldbBlockWrite.isLastStates", "LeveldbBlockWrite.updateLockedStates")
+	// what a merge into the permanent database copies (the model's mergePerm moves a whole block): verified against the
+	// chain model under C19 / C21, pinned here
+	_ = o.pinFile("isaac/database/perm_leveldb.go", "LeveldbPermanent.mergeTempDatabaseFromLeveldb")
 	if f == nil || g == nil || ct == nil {
 		return
 	}
